@@ -171,6 +171,8 @@ def rule_r4(prog, res) -> None:
                         why = f"the variance-only covariance is not the main diagonal (diagonals taken: {sorted(set(ks))})"
                     elif kv == "diag" and "0" not in ks:
                         why = f"the main diagonal (k=0) is missing from the diagonals-only covariance (diagonals taken: {sorted(set(ks))[:4]})"
+                    elif kv == "diag" and not (any("shape" in k_ and not k_.startswith("-") for k_ in ks) and any("shape" in k_ and k_.startswith("-") for k_ in ks)):
+                        why = f"the diagonals that pair the same observable of different sample sets (offsets ± the width of a set, above and below the main diagonal) are not both taken (diagonals taken: {sorted(set(ks))[:4]})"
                     if why:
                         bad.setdefault("kind", (p, f"kind='{kv}': {why}"))
                 if not main:
@@ -284,6 +286,34 @@ def rule_r4(prog, res) -> None:
     else:
         res.violation("C03.R4", err, err.node, f"error is {rtxt}, expected sqrt(diag(covariance))", key_extra="error-formula")
     ctxt = unparse([r.value for r in walk_no_nested(covp.node) if isinstance(r, ast.Return)][0]).replace(" ", "")
+    # correlation = covariance scaled to unit diagonal: of degree zero in the covariance (cov / outer(sqrt(diag), sqrt(diag)))
+    corr = sd.methods.get("correlation")
+    if corr is not None:
+        from .. import homog
+
+        res.touch(corr)
+
+        def atom_c(e):
+            if isinstance(e, ast.Attribute) and e.attr == "covariance" and isinstance(e.value, ast.Name) and e.value.id == "self":
+                return homog.Deg.of({"cov": 1})
+            if isinstance(e, ast.Call) and isinstance(e.func, ast.Name) and e.func.id in (symx.ENTER, symx.LOOP, symx.ELEM) and e.args:
+                return homog.degree(e.args[0], atom_c)
+            return None
+
+        for p_ in symx.explore(prog, corr, inline=symx.inline_private_helpers(prog)):
+            if p_.outcome != "return" or p_.value is None:
+                continue
+            v_ = p_.value
+            # (element-wise patches such as corr[cov == 0] = 0 are stores of constants: SETITEM wrappers carry the base)
+            while isinstance(v_, ast.Call) and isinstance(v_.func, ast.Name) and v_.func.id == symx.SETITEM and v_.args:
+                v_ = v_.args[0]
+            d_ = homog.degree(v_, atom_c)
+            if isinstance(d_, homog.Deg) and not d_.exps:
+                res.ok("C03.R4", res.site(corr), "correlation matrix is of degree zero in the covariance (covariance over the outer product of the standard deviations)")
+            elif isinstance(d_, homog.Unknown_):
+                raise AnalysisError(f"C03.R4: cannot type the correlation matrix ({d_}: {unparse(v_)[:60]})")
+            else:
+                res.violation("C03.R4", corr, p_.node or corr.node, f"the correlation matrix is {d_} in the covariance instead of scale-free: it is not the covariance divided by the outer product of the standard deviations (values outside [-1, 1], dependent on the units of the data)", key_extra="correlation-not-normalised")
     if ctxt == "cov_from_samples(self.samples)":
         res.ok("C03.R4", res.site(covp), "covariance of exactly the stored samples (default rowvar=False: rows are samples)")
     else:
